@@ -43,6 +43,10 @@ pub enum ReasonCode {
     ServerUnavailable = 0x88,
     /// Server busy.
     ServerBusy = 0x89,
+    /// Banned.
+    Banned = 0x8a,
+    /// Server shutting down.
+    ServerShuttingDown = 0x8b,
     /// Bad authentication method.
     BadAuthMethod = 0x8c,
     /// Keepalive timeout.
